@@ -794,10 +794,25 @@ fn gen_c14(ch: &mut Chunker, r: &mut Rng, thorough: bool, scale: usize) {
             rec_c14(ch, t, &o);
         }
     }
+    // carriage returns: a bare CR is ordinary text under the LF option (and CR LF is "text + ending"), under the CRLF
+    // option a lone LF is text
+    for (i, t) in all_strings(&['a', ' ', '\r', '\n'], 5).iter().enumerate() {
+        for w in 1..5 {
+            if (i + w) % 3 != 0 {
+                continue;
+            }
+            let mut o = Opts::new(w);
+            o.sep = seps[(i + w) % seps.len()];
+            o.alg = if FULL && (i + w) % 4 == 0 { Alg::Opt(Pen::DEFAULT) } else { Alg::FF };
+            o.splitter = Splitter::None;
+            o.crlf = (i / 2 + w) % 3 == 0;
+            rec_c14(ch, t, &o);
+        }
+    }
     let ocfg = OptCfg { indents: false, custom_splitters: false, algs: &[0, 0, 1, 2], crlf: true };
     for i in 0..400 * scale {
         let crlf = i % 5 == 0;
-        let tc = TextCfg { max_words: 7, max_paras: 3, ansi: if i % 4 == 0 { Ansi::WellFormed } else { Ansi::None }, unicode: true, ctrl: false, crlf };
+        let tc = TextCfg { max_words: 7, max_paras: 3, ansi: if i % 4 == 0 { Ansi::WellFormed } else { Ansi::None }, unicode: true, ctrl: i % 3 == 0, crlf };
         let text = if i % 6 == 0 { gen_alpha(r, ALPHA_WRAP, 14) } else { gen_text(r, &tc) };
         let widths = widths_for(r, &text, "", "", true);
         for _ in 0..5 {
